@@ -30,6 +30,21 @@ pub fn corpus() -> Vec<(&'static str, IncCfg, Option<(i64, i64)>, Vec<Op>)> {
         Op::ClosePosition { sender: 1, dur: 86_400, now: START_TIME + 86_400 }, Op::Withdraw { sender: 1 }, Op::Withdraw { sender: 1 },
         Op::CloseFlow { sender: 1, ident: Ident::Id(1) },
     ]));
+    // two closed positions of one user whose unbonding timestamps coincide: close, re-open with the same duration and close again
+    // in the same block; and durations 86 500 / 86 400 closed 100 seconds apart. Both must be withdrawable in full.
+    for lp in [3i64, 10] {
+        let c = cfg_base(lp, 0);
+        v.push(("coinciding_unbonding_timestamps", c.clone(), None, vec![
+            pos(&c, true, 1, 1_000, 86_400, None), pos(&c, true, 2, 555, 86_400, None),
+            Op::ClosePosition { sender: 1, dur: 86_400, now: START_TIME + 50 },
+            pos(&c, true, 1, 900, 86_400, None),
+            Op::ClosePosition { sender: 1, dur: 86_400, now: START_TIME + 50 },
+            pos(&c, true, 1, 300, 86_500, None), pos(&c, true, 1, 200, 86_400, None),
+            Op::ClosePosition { sender: 1, dur: 86_500, now: START_TIME + 1_000 },
+            Op::ClosePosition { sender: 1, dur: 86_400, now: START_TIME + 1_100 },
+            Op::Withdraw { sender: 1 }, Op::Withdraw { sender: 1 }, Op::Withdraw { sender: 2 },
+        ]));
+    }
     // the same with a cw20 LP token, allowance larger than the amount, wrong funds
     let c = cfg_base(10, 1);
     v.push(("cw20_lp_allowances", c.clone(), None, vec![
